@@ -7,8 +7,14 @@ import numpy as np
 import translate_hc
 from common import LEAN, REPO, R, Ro, Cxo, fl
 
-LEAN_MODULES = ["PyomaVerif.Props.C09", "PyomaVerif.Mutants.C09", "PyomaVerif.Props.C09C18", "PyomaVerif.Props.C09All", "PyomaVerif.Props.C09Blank", "PyomaVerif.Props.C09Stored", "PyomaVerif.Props.C09Run", "PyomaVerif.Props.C09RunLink", "PyomaVerif.Props.C09C18Contracts"]
+LEAN_MODULES = ["PyomaVerif.Props.C09", "PyomaVerif.Mutants.C09", "PyomaVerif.Props.C09C18", "PyomaVerif.Props.C09All", "PyomaVerif.Props.C09Blank", "PyomaVerif.Props.C09Stored", "PyomaVerif.Props.C09Run", "PyomaVerif.Props.C09RunLink", "PyomaVerif.Props.C09C18Contracts", "PyomaVerif.Props.WiringCalls"]
 THEOREMS = [
+    # the exact sequence of core-routine calls of the run()/mpe() body and the exact set of parameters bound at each (regenerated call table)
+    "PV.WiringCalls.C05_plscf_run_calls",
+    # the exact sequence of core-routine calls of the run()/mpe() body and the exact set of parameters bound at each (regenerated call table)
+    "PV.WiringCalls.C03_ssidat_ms_run_calls",
+    # the exact sequence of core-routine calls of the run()/mpe() body and the exact set of parameters bound at each (regenerated call table)
+    "PV.WiringCalls.C12_ssidat_run_calls",
     # C09 for all six classes as ONE theorem over the list (program, required fields, which flags exist)
     "PV.C09All.C09_seq_all",
     "PV.C09All.required_pole_fields",
@@ -123,7 +129,10 @@ ASSUMPTIONS = [
 def pre_build(ctx):
     ok, msg, summary = translate_hc.write(REPO, LEAN)
     ctx.notes.append(f"translator: {msg}; {summary}")
-    return ok, msg
+    from common import wiring_pre_build
+
+    ok2, msg2 = wiring_pre_build(ctx)  # the call-set obligations (WiringCalls) read the regenerated wiring table
+    return ok and ok2, f"{msg}; {msg2}"
 
 
 # ----------------------------------------------------------------------------- correspondence
